@@ -109,6 +109,14 @@ def run(ctx):
         cube = np.where(cube == -9999, -9999, np.round(cube))
         win = [(None, None), ("2003-01-01", None), (None, "2005-12-31"), ("2002-06-01", "2006-06-30")][it % 4]
         acc.append(dict(cube=cube.tolist(), dtype=dt, nodata=-9999.0, time=t, groups=months if it % 3 != 2 else None, begin=win[0], end=win[1]))
+    # wider integer types holding values beyond the int16 range (seasonal totals in 1/100 mm): the kernel must see the values as they are
+    for it, dt in enumerate(["int32", "int64"] + (["uint16", "int32"] if ctx.thorough else [])):
+        t = [str(np.datetime64("2001-01-15") + np.timedelta64(30 * k, "D"))[:10] for k in range(60)]
+        cube = np.round(rng.gamma([2.0, 40.0][it % 2], [8000.0, 2500.0][it % 2] if dt != "uint16" else 900.0, size=(len(t), 2, 2)))
+        cube[rng.random(cube.shape) < 0.1] = 0
+        ndw = -9999.0 if dt != "uint16" else 65535.0
+        cube[rng.random(cube.shape) < 0.05] = ndw
+        acc.append(dict(cube=cube.tolist(), dtype=dt, nodata=ndw, time=t, groups=None, begin=[None, "2002-01-01"][it % 2], end=None))
     kw_cube = rng.gamma(2.0, 40.0, size=(2, 2, 24))
     kw_cube[rng.random(kw_cube.shape) < 0.2] = 0
     kw_cube[rng.random(kw_cube.shape) < 0.1] = -9999
